@@ -11,7 +11,8 @@ def main():
     pid, var = sys.argv[1], sys.argv[2]
     checks = sys.argv[3:] or [pid]
     src = '%s/%s/%s' % (os.environ.get('SEED_SRC', '/tmp/seed_out'), pid, var)
-    dvar = {'A': 'C', 'B': 'D'}[var] if os.environ.get('SEED_SRC', '').endswith('seed2_out') else var
+    ss = os.environ.get('SEED_SRC', '')
+    dvar = {'A': 'C', 'B': 'D'}[var] if ss.endswith('seed2_out') else ({'A': 'E', 'B': 'F'}[var] if ss.endswith('seed3_out') else var)
     dst = '%s/seeded/%s-%s' % (V, pid, dvar)
     if not os.path.exists(src) and os.path.exists(dst):
         src = dst
